@@ -16,9 +16,9 @@ R17 = ("R17", r"for zrs in records\.values\(\)", r"for zrs in it__: shim_hashmap
 
 SPECS = {
     "ZoneRecord::to_rr": {"props": ["C02"], "contract": "    ensures r == to_rr_spec(*self, *name), // [C02:record_data_ttl_unchanged]"},
-    "zone_result_helper": {"props": ["C02"], "rewrites": [R15, R17],
+    "zone_result_helper": {"props": ["C02", "C10"], "rewrites": [R15, R17],
         "contract": """    requires recs_typed(records@),
-    ensures terminal_ok(r, records@, *name, qtype, *nsdname, true), // [C02:terminal_classification]""",
+    ensures terminal_ok(r, records@, *name, qtype, *nsdname, true), // [C02,C10:terminal_classification]""",
         "entry": "broadcast use vstd::std_specs::hash::group_hash_axioms, axiom_rt_key_model, axiom_qt_eq, axiom_rt_eq, axiom_qt_obeys, axiom_rt_obeys;",
         "loops": {"0": {"kw": "for", "spec": """                invariant
                     forall|j: int, i: int| #![trigger it__.seq()[j]@[i]] 0 <= j < it__.index@ && 0 <= i < it__.seq()[j]@.len() ==> rrs@.contains(to_rr_spec(it__.seq()[j]@[i], *name)),
